@@ -85,7 +85,16 @@ func c14Tuple(c *mon.Ctx, r *rand.Rand, lat, lon, m float64, i int) {
 			return
 		}
 		if m < 1 {
+			// below a metre nothing is claimed about coverage, but the answer is the degenerate rectangle at the
+			// centre or a rectangle around it: the centre lies inside and the latitude extent is that of the disc
 			c.Count("sub_metre_radii")
+			if lat < minLat-eps || lat > maxLat+eps || lon < minLon-eps || lon > maxLon+eps {
+				c.Violation("centre-outside", "sub-metre radius: the centre does not lie inside the returned rectangle", mk(""))
+				return
+			}
+			if ext := maxLat - minLat; ext > 2*(m/sphere.R)*180/math.Pi+2e-7 {
+				c.Violation("sub-metre-extent", "sub-metre radius: the rectangle is more than a centimetre taller than the disc", mk(fmt.Sprintf("latitude extent %g degrees", ext)))
+			}
 			return
 		}
 		rho := m / sphere.R
